@@ -257,10 +257,12 @@ func (t *Template) expectString(context string) string {
 // It runs to EOF.
 func (t *Template) parseTemplate(cacheAfterParsing bool) (next Node) {
 	t.Root = t.newList(t.peek().pos)
+	var skippedSpace []item // whitespace-only text seen while looking for leading extends/import clauses
 	// {{ extends|import stringLiteral }}
 	for t.peek().typ != itemEOF {
 		delim := t.next()
 		if delim.typ == itemText && strings.TrimSpace(delim.val) == "" {
+			skippedSpace = append(skippedSpace, delim)
 			continue //skips empty text nodes
 		}
 		if delim.typ == itemLeftDelim {
@@ -293,6 +295,13 @@ func (t *Template) parseTemplate(cacheAfterParsing bool) (next Node) {
 		} else {
 			t.backup()
 			break
+		}
+	}
+
+	if t.extends == nil && len(t.imports) == 0 {
+		// no extends/import clause: the whitespace skipped above is ordinary template text
+		for _, space := range skippedSpace {
+			t.Root.append(t.newText(space.pos, space.val))
 		}
 	}
 
